@@ -362,6 +362,8 @@ func gen(seed uint64, tier string) {
 				g = wide(r, 1+r.Intn(4), 0, []int{65, 129}[r.Intn(2)]) // one long text in the window
 			case j%3 == 2:
 				g = geom.Point{X: float64(r.Range(-9, 9)), Y: coord(r, false)}
+			case j%4 == 1 && i%2 == 1:
+				g = small.geom(r, 5+r.Intn(3)) // the error path inside a history: MultiPoint, GeometryCollection, *Bounds
 			default:
 				g = small.geom(r, r.Intn(5))
 			}
@@ -779,6 +781,14 @@ func impl() {
 					h.Write([]byte(line))
 					if h.Sum32()&1 == 1 {
 						wkt.Encode(poison)
+					}
+					// (bit 3) … and/or the error path was taken by the call immediately before: an unsupported type
+					if h.Sum32()&8 == 8 {
+						if h.Sum32()&16 == 16 {
+							wkt.Encode(geom.MultiPoint{{X: 1, Y: 2}})
+						} else {
+							wkt.Encode(&geom.Bounds{Min: geom.Point{X: 0, Y: 0}, Max: geom.Point{X: 1, Y: 1}})
+						}
 					}
 				}
 				buf, err := wkt.Encode(arg)
